@@ -65,7 +65,9 @@ if [ "$MODE" = "--replay" ]; then
   esac
 fi
 
-mkdir -p "$VERIF/evidence" "$VERIF/replays"
+EVD="${VORESIM_EVIDENCE_DIR:-$VERIF/evidence}"   # sensitivity runs against scratch trees write elsewhere
+RPD="${VORESIM_REPLAY_DIR:-$VERIF/replays}"
+mkdir -p "$EVD" "$RPD"
 "$S/bin/voresim" check "${COMMON[@]}" -tier "$MODE" -seed "$SEED" -prop "$ID" \
-   -evidence "$VERIF/evidence/$ID.json" -replays "$VERIF/replays" -known "$VERIF/known_findings.jsonl" ${VORESIM_WORKERS:+-workers "$VORESIM_WORKERS"}
+   -evidence "$EVD/$ID.json" -replays "$RPD" -known "$VERIF/known_findings.jsonl" ${VORESIM_WORKERS:+-workers "$VORESIM_WORKERS"}
 exit $?
